@@ -10,11 +10,14 @@ CLAIMS = {
          "Lean 4 proof + model/implementation correspondence", "DESIGN §6 C09"),
  "C10": ("store", "Lean 4 theorems about the contract on either backend (last-write-wins lookups for groups, messages, dedup records; exact selection of invalidation / retry / pending-welcome queries; backend independence of listing, tag search and prune count from regenerated facts), the full equality statement kept as a Prop with closed counter-witnesses for the two open differences, and a three-way differential run (model/memory, model/SQLite, memory/SQLite) on identical seeded histories. Partial: the all-operations refinement theorem is not yet proved; equality of the backends is established per run by the differential oracle.",
          "Lean 4 proof + three-way differential correspondence", "DESIGN §6 C10"),
+ "C20": ("mgr", "Lean 4 theorems over the EpochSnapshotManager model for every retention value (0 included), both backends and every sequence of commits, MIP-03 comparisons, rollbacks, restarts with any TTL: every group's rollback queue holds at most `retention` entries after every step (induction over the op list), nothing older than the TTL is stored after a restart, a rollback leaves no queue entry at or after the rolled-back epoch, a commit is never better than itself and hydrated entries are never compared. Correspondence against the real manager over both storage backends (hydration order, retention trimming, release on rollback) and an oracle with a spec-level log (stored count <= retention, kept = most recent commits, TTL).",
+         "Lean 4 proof + model/implementation correspondence", "DESIGN §6 C20"),
 }
 PENDING = "not yet claimed: machinery under construction in this session (planned per DESIGN §12)"
 def main():
     engines = [{"name": "lean-model", "path": "lean/", "serves_properties": sorted(CLAIMS), "kind_free_text": "Lean 4 executable model, helper lemmas, property theorems (MdkVerif.Props.*), compiled driver mdkdrv"},
                {"name": "store", "path": "harness/src/store.rs + vlib/storeeng.py", "serves_properties": [p for p, v in CLAIMS.items() if v[0] == "store"], "kind_free_text": "correspondence + oracle engine over the storage traits on both backends"},
+               {"name": "mgr", "path": "harness/src/mgr.rs + vlib/mgreng.py", "serves_properties": [p for p, v in CLAIMS.items() if v[0] == "mgr"], "kind_free_text": "drives the real EpochSnapshotManager over both backends"},
                {"name": "translator", "path": "tools/gen_model.py", "serves_properties": sorted(CLAIMS), "kind_free_text": "regenerates lean/MdkVerif/Generated.lean from /repo on every run"}]
     m = {"version": 1, "setup_cmd": "./setup.sh",
          "hooks": {"guard": "cargo feature verif-hooks (mdk-core, mdk-memory-storage, mdk-sqlite-storage)",
